@@ -236,4 +236,25 @@ def indexByteGo (c : UInt8) : Bytes → Nat → Int
 /-- `strings.IndexByte(s, c)` -/
 def indexByte (d : Bytes) (c : UInt8) : Int := indexByteGo c d 0
 
+/-! ### lists of other elements (`[]rune`, `[]int` as `List Int`): the checked operations again -/
+
+/-- `d[i]` -/
+def lidx {α} (d : List α) (i : Int) : V α :=
+  if 0 ≤ i then (match d[i.toNat]? with | some b => .ok b | none => .panic "index out of range") else .panic "index out of range"
+
+/-- `d[a:b]` -/
+def lslice {α} (d : List α) (a b : Int) : V (List α) :=
+  if 0 ≤ a ∧ a ≤ b ∧ b ≤ d.length then .ok ((d.take b.toNat).drop a.toNat) else .panic "slice bounds out of range"
+
+/-- `d[a:]` -/
+def lsliceFrom {α} (d : List α) (a : Int) : V (List α) :=
+  if 0 ≤ a ∧ a ≤ d.length then .ok (d.drop a.toNat) else .panic "slice bounds out of range"
+
+/-- `d[:b]` -/
+def lsliceTo {α} (d : List α) (b : Int) : V (List α) :=
+  if 0 ≤ b ∧ b ≤ d.length then .ok (d.take b.toNat) else .panic "slice bounds out of range"
+
+/-- `len(d)` -/
+@[inline] def llen {α} (d : List α) : Int := d.length
+
 end Fabio.Xlate
